@@ -7,6 +7,10 @@ PASS, SKIP, TRUNC = "PASS", "SKIP", "TRUNC"
 # that does *not* fail proves the harness never reaches its assertion (vacuity).
 TWIN = False
 
+# True only inside the engine's worker processes while a harness is explored symbolically; harnesses use it
+# to install contract models of builtins whose engine model differs from CPython (harness/tripwires.py).
+UNDER_ENGINE = False
+
 
 def FAIL(detail):
     return ("FAIL", detail)
